@@ -8,6 +8,8 @@
                                                               came back within 900 virtual seconds)
      "late"   observer_calls, events_delivered            caused by datagrams / timers of abandoned
               connections after the reset returned (must be 0)
+     "steady" extra_tasks (LOC / SPA / FACADE task names alive more than once), extra_endpoints (open endpoints
+              beyond one per kind) once everything has settled: they belong to an abandoned connection
      "cycles" n, max_endpoints, max_tasks, bound_endpoints, bound_tasks
      "book"   probes, n_orphans (live probe tasks, added at every loop iteration across several tidy
               passes, that are missing from the task manager's list), alive_after_cancel (TaskBook.tla)   *)
@@ -20,6 +22,8 @@ Verdict(r) ==
                           ELSE IF Len(r.tasks_alive) > 0 THEN "task-alive-after-exit"
                           ELSE IF Len(r.endpoints_open) > 0 THEN "endpoint-open-after-exit" ELSE "ok"
     [] r.kind = "late" -> IF r.observer_calls > 0 \/ r.events_delivered > 0 THEN "late-effect-of-abandoned-connection" ELSE "ok"
+    [] r.kind = "steady" -> IF Len(r.extra_tasks) > 0 THEN "task-of-abandoned-connection-still-alive"
+                            ELSE IF r.extra_endpoints > 0 THEN "endpoint-of-abandoned-connection-left-open" ELSE "ok"
     [] r.kind = "cycles" -> IF r.max_endpoints > r.bound_endpoints \/ r.max_tasks > r.bound_tasks THEN "resources-grow-with-reconnect-cycles" ELSE "ok"
     [] r.kind = "book" -> IF r.n_orphans > 0 THEN "live-task-missing-from-the-task-list"
                           ELSE IF r.alive_after_cancel > 0 THEN "cancelled-family-still-has-live-tasks" ELSE "ok"
